@@ -164,6 +164,17 @@ class Properties(Container):
         if nc is not None:
             out.append(f"{name}.nc_set_variable('{nc}')")
 
+        # netCDF dimension names (bounds, interior ring, count and
+        # index variables, etc.)
+        for nc_name in ("dimension", "sample_dimension"):
+            nc_get = getattr(self, f"nc_get_{nc_name}", None)
+            if nc_get is None:
+                continue
+
+            nc = nc_get(None)
+            if nc is not None:
+                out.append(f"{name}.nc_set_{nc_name}({nc!r})")
+
         if string:
             indent = " " * indent
             out[0] = indent + out[0]
